@@ -584,6 +584,12 @@ class Engine:
                 if z3.is_false(t) or s.feasible(pb):
                     yield from s.ev(n.orelse, pb)
 
+    def ev_Lambda(s, n, p):
+        fd = ast.FunctionDef(name="<lambda>", args=n.args, body=[ast.copy_location(ast.Return(value=n.body), n)], decorator_list=[], returns=None, type_comment=None, type_params=[])
+        ast.copy_location(fd, n)
+        ast.fix_missing_locations(fd)
+        yield SFunc(fd), p
+
     def ev_JoinedStr(s, n, p):
         # f-strings only occur in messages: value is an opaque string, but embedded expressions are evaluated (they may raise)
         exprs = [v.value for v in n.values if isinstance(v, ast.FormattedValue)]
